@@ -879,6 +879,29 @@ func ruleSignParity(w *World, r *RuleResult) {
 			}
 		}
 	}
+	// ... or one update for both signs: state = state != (tok == "-"), an exclusive or with the test
+	if !found {
+		for _, p := range fps {
+			if p.End != "backedge" {
+				continue
+			}
+			last := p.Events[len(p.Events)-1]
+			for _, a := range last.Args {
+				a = stripConv(a)
+				if a.Op != "not" || len(a.A) != 1 || a.A[0].Op != "eq" {
+					continue
+				}
+				x, y := stripConv(a.A[0].A[0]), stripConv(a.A[0].A[1])
+				isMinus := func(t *T) bool {
+					return t.Op == "eq" && ((t.A[1].Op == "str" && t.A[1].S == "-") || (t.A[0].Op == "str" && t.A[0].S == "-"))
+				}
+				if (x.Op == "loopvar" && isMinus(y)) || (y.Op == "loopvar" && isMinus(x)) {
+					found = true
+					d.add(true, f1.Name()+"/sign-state", w.Pos(f1.Pos()), "the sign state is its previous value exclusive-or 'the token is -'", "")
+				}
+			}
+		}
+	}
 	if !found {
 		d.add(false, f1.Name()+"/sign-state", w.Pos(f1.Pos()), "", "the sign-folding pass has no loop-carried sign state that reacts to '-'")
 	}
